@@ -31,7 +31,9 @@ def scenarios(rng, n, tier):
             T = rng.choice([1, 2, 4, 64, 640, 6400]) * GRID * rng.randint(1, 5)
             o = {"op": "sch", "call": 0, "timings": [["c", T]], "clock": clock, "payload": i + 1}
             c = rng.random()
-            if c < 0.15:
+            if c < 0.08:
+                o["w"] = [-rng.randint(1, 3), 1]
+            elif c < 0.15:
                 o["w"] = [0, 1]
             elif c < 0.5:
                 o["w"] = [rng.choice([1, 1, 2, 3]), 1]
